@@ -510,6 +510,19 @@ static void checkLive(Checker& c, Rng& rng, const Pvt&, const PvtxTab& t, bool o
             Val em = c.full("viscosity", fMu, p, p, R, RRange);
             c.rep.count("extended_branch_points");
             if (!std::isfinite(eb.v) || !std::isfinite(em.v)) c.fail("extension-nonfinite:" + K, "non-finite value on an extended branch");
+            // PVTO: a branch that has its saturated row only takes its undersaturated behaviour from the NEXT branch with
+            // undersaturated rows, keeping that branch's compressibility and viscosibility: at p = pSat + (pM_k - pM_0) the values are
+            // Bo = BoSat * BoM_k / BoM_0 and mu = muSat * muM_k / muM_0 (the keyword's documented rule)
+            if (oil) for (size_t k = 1; k < mb.rows.size(); ++k) {
+                const double pk = sat[i].p + (mb.rows[k].y - mb.rows[0].y) * u.p;
+                const double wantB = sat[i].B * mb.rows[k].B / mb.rows[0].B, wantMu = sat[i].mu * mb.rows[k].mu / mb.rows[0].mu;
+                Val xb = c.both("inverseFormationVolumeFactor", fInvB, pk, sat[i].R);
+                Val xm = c.both("viscosity", fMu, pk, sat[i].R);
+                std::ostringstream w3; w3.precision(12);
+                w3 << "single-row branch " << i + 1 << " (" << Rn << "=" << sat[i].R << ") at p = pSat + offset of row " << k + 1 << " of branch " << m + 1 << " (p=" << pk << " Pa)";
+                c.close("extension-rule:" + K + ":" + Bn, "extension-rule", std::string(Bn) + " on " + w3.str(), 1.0 / xb.v, wantB, 1e-7);
+                c.close("extension-rule:" + K + ":" + Mn, "extension-rule", std::string(Mn) + " on " + w3.str(), xm.v, wantMu, 1e-7);
+            }
         }
     }
 
